@@ -15,7 +15,7 @@ runahead and queue limits"):
   (`is_stalled_iff`, `stall_flag_only_if_stalled`, `no_stall_with_releasable`, `no_auto_shutdown_with_releasable`).
 `act s members` = number of pooled proxies with a name in `members` that count against the limit (C05S).
 -/
-import CylcModel.Sched3QLemmasC03
+import CylcModel.Sched3QLemmasC03b
 namespace CylcModel.C03Q
 open CylcModel.Sched3Q
 
@@ -154,6 +154,84 @@ theorem no_auto_shutdown_with_releasable (g : Graph) (s : State) :
   | false => rfl
   | true => exact absurd ⟨hw, hr⟩ ((autoShutdown_sound g s hc).2.1 x (get?_some_mem hx).1)
 
+
+/-! ### Whole operations: every op list is a sequence of `step`s, so these hold along every run -/
+
+/-- **shutdown_sound**: a scheduler that was not asked to stop (no stop mode requested, no stop task) stops only in
+a main loop, with reason AUTOMATIC, in the pool the decision was taken on (after `compute_runahead` /
+`release_runahead_tasks`), and that pool has nothing preparing / submitted / running, no released waiting proxy,
+no finished-incomplete proxy and no proxy partially satisfied within the stop point; in particular no queue holds
+a ready task at that moment. Any graph, any queue table, any state, any operation (commands and restart included). -/
+theorem shutdown_sound (g : Graph) (s : State) (op : Op) (h0 : s.stop = none) (hm : s.stopMode = none)
+    (ht : s.stopTask = none) (h : (step g s op).stop.isSome = true) :
+    op = .loop ∧ (step g s op).stop = some "AUTOMATIC" ∧ ShutdownOK g (decision g (clearOp s)) ∧
+      (step g s op).pool = (decision g (clearOp s)).pool ∧
+      (step g s op).stopPoint = (decision g (clearOp s)).stopPoint ∧
+      ∀ k, ¬ Releasable (step g s op) k := by
+  by_cases hop : op = .loop
+  · subst hop
+    have hstep : step g s .loop = mainLoop g (clearOp s) := rfl
+    rw [hstep] at h ⊢
+    obtain ⟨a, b, c, d⟩ := mainLoop_shutdown g (clearOp s) h0 hm ht h
+    refine ⟨rfl, a, b, c, d, ?_⟩
+    intro k ⟨q, _, _, x, hx, hw, hr, _⟩
+    have hxm := (get?_some_mem hx).1
+    rw [c] at hxm
+    exact b.2.1 x hxm ⟨hw, hr⟩
+  · exfalso
+    have := (step_other g s op hop).2 h
+    rw [h0] at this; cases this
+
+/-- **stall_sound**: the stall flag goes up only in a main loop of a scheduler that is not paused, and then
+`StallSpec` holds of the pool at the decision point of that loop or of the pool the loop ends in (the two places
+`check_workflow_stalled` is called): nothing is preparing / submitted / running - so every queue has all its slots
+free -, no released waiting proxy has its prerequisites satisfied - so no queue holds a ready task -, and some
+proxy is incomplete or partially satisfied within the stop point. -/
+theorem stall_sound (g : Graph) (s : State) (op : Op) (hs : s.stalled = false)
+    (h : (step g s op).stalled = true) :
+    op = .loop ∧ s.paused = false ∧ (StallSpec g (decision g (clearOp s)) ∨ StallSpec g (step g s op)) := by
+  by_cases hop : op = .loop
+  · subst hop
+    have hstep : step g s .loop = mainLoop g (clearOp s) := rfl
+    rw [hstep] at h ⊢
+    obtain ⟨hp, hh⟩ := mainLoop_stalled g (clearOp s) hs h
+    refine ⟨rfl, hp, ?_⟩
+    rcases hh with hh | hh
+    · exact Or.inl ((isStalled_iff g _).mp hh)
+    · exact Or.inr ((isStalled_iff g _).mp hh)
+  · exfalso
+    have := (step_other g s op hop).1 h
+    rw [hs] at this; cases this
+
+/-- **bounded response over a whole main loop**: in a main loop of a scheduler that is neither paused nor stopping,
+started in a state satisfying the run invariants (independent queues), every proxy that sits in a queue once the
+loop has released runahead-limited tasks and swept the pool for ready tasks (`beforeRelease`), is waiting and is
+not held, is in the launch log of THIS main loop under its next submit number - or its queue is at its limit,
+counting the members preparing / submitted / running / awaiting preparation and what this loop released from it -/
+theorem main_loop_response {g : Graph} {s : State} (h : KeepQ g s) (hi : IndepSig (g.queues.map QDef.sig))
+    (h0 : s.stop = none) (hp : s.paused = false) (hsm : (preLoop g s).stopMode = none)
+    (q : LQ) (hq : q ∈ (beforeRelease g s).qs) (k : Key) (hk : k ∈ q.deque) (x : Proxy)
+    (hx : (beforeRelease g s).get? k.1 k.2 = some x) (hw : x.status = .waiting) (hh : x.held = false) :
+    (x.pt, x.name, x.submitNum + 1) ∈ (mainLoop g s).launched ∨
+      (0 < q.limit ∧ q.limit ≤ act (beforeRelease g s) q.members +
+        ((releaseQueued (beforeRelease g s)).2.filter fun k => q.members.contains k.2).length) := by
+  have hc : canStop (preLoop g s) = false := by unfold canStop; rw [hsm]
+  obtain ⟨hl, hk2⟩ := mainLoop_launched h h0 hc
+  obtain ⟨_, _, c3, c4, _⟩ := ctl_parts (ct_sweepQueue (preLoop g s) (rfl : CT (ctl (preLoop g s)) (preLoop g s)))
+  obtain ⟨_, _, _, d4, _⟩ := ctl_parts (ct_decision g s (rfl : CT (ctl s) s))
+  have hpp : (beforeRelease g s).paused = false := by
+    show (sweepQueue (preLoop g s)).paused = false
+    rw [c4, preLoop_eq, (shutdownBlock_fields g (decision g s)).2.2.2.1, d4, hp]
+  have hmm : (beforeRelease g s).stopMode = none := by
+    show (sweepQueue (preLoop g s)).stopMode = none
+    rw [c3, hsm]
+  have hrel : relStep (beforeRelease g s) = releaseAndSubmit (beforeRelease g s) := by
+    unfold relStep; simp [hpp, hmm]
+  rw [hl]
+  show _ ∈ (relStep (beforeRelease g s)).launched ∨ _
+  rw [hrel]
+  exact release_step_response hk2 hi q hq k hk x hx hw hh
+
 /-! ### non-vacuity -/
 
 /-- one parentless task over three cycles in a queue of limit 1 (the witness workflow of the check) -/
@@ -165,9 +243,7 @@ def exQ : Graph :=
         insts := [(1, { pre := [], sui := [], children := [], nextParentless := some 2 }),
                   (2, { pre := [], sui := [], children := [], nextParentless := some 3 }),
                   (3, { pre := [], sui := [], children := [], nextParentless := none })],
-        firstParentless := some 1, completion := CE.var "succeeded",
-        outputs := [{ trigger := "submitted", message := "submitted" }, { trigger := "started", message := "started" },
-                    { trigger := "succeeded", message := "succeeded" }, { trigger := "failed", message := "failed" }] }] }
+        firstParentless := some 1, completion := CE.var "succeeded", outputs := [] }] }
 
 theorem exQ_indep : IndepSig (exQ.queues.map QDef.sig) := by
   unfold IndepSig; simp [exQ, QDef.sig]
@@ -195,9 +271,16 @@ example : act sFail ["a"] = 0 ∧ (releaseQueued sFail).2 = [(2, "a")] ∧
 example : (step exQ sFail .loop).launched = [(2, "a", 1)] ∧ (step exQ sFail .loop).stalled = false := by decide
 
 -- `Releasable` is satisfiable: 2/a in `sFail`; no stall, no automatic shutdown there
-example : Releasable sFail (2, "a") :=
-  ⟨{ name := "q", limit := 1, members := ["a"], deque := [(2, "a"), (3, "a")] }, by decide, by decide,
-    { pt := 2, name := "a", queued := true, runahead := false }, by decide, rfl, rfl, by decide⟩
+example : Releasable sFail (2, "a") := by
+  have h : ((sFail.get? 2 "a").map fun x => (x.status, x.runahead, x.prereqsSatisfied)) =
+      some (Status.waiting, false, true) := by decide
+  cases hx : sFail.get? 2 "a" with
+  | none => rw [hx] at h; cases h
+  | some x =>
+    rw [hx] at h
+    simp only [Option.map_some, Option.some.injEq, Prod.mk.injEq] at h
+    exact ⟨{ name := "q", limit := 1, members := ["a"], deque := [(2, "a"), (3, "a")] }, by decide, by decide,
+      x, hx, h.1, h.2.1, h.2.2⟩
 
 /-- a single cycle: after the failure nothing can run, and the stall flag goes up (a genuine stall) -/
 def exQ1 : Graph := { exQ with fcp := 1, seqs := [[1]], stopPoint := some 1, runahead := 1 }
@@ -205,8 +288,24 @@ def exQ1 : Graph := { exQ with fcp := 1, seqs := [[1]], stopPoint := some 1, run
 example : ((run exQ1 (opsFail ++ [.loop])).map fun s => s.stalled) = [false, false, false, false, false, true] := by
   decide
 
--- automatic shutdown is reachable with a limited queue: every job succeeds, one at a time
-example : ((run exQ1 [.loop, .subres 1 "a" true 1, .msg 1 "a" 1 "succeeded", .loop, .loop]).map fun s => s.stop) =
-    [none, none, none, none, none, some "AUTOMATIC"] := by decide
+-- `check_auto_shutdown` says yes on a reachable state with a limited queue: stop point before the first cycle, the
+-- pool holds one runahead-limited proxy and the first main loop shuts down
+def exQ0 : Graph := { exQ1 with stopPoint := some 0 }
+
+example : (checkAutoShutdown exQ0 (releaseRunahead exQ0 (computeRunahead exQ0 (init exQ0))).1).2 = true ∧
+    (step exQ0 (init exQ0) .loop).stop = some "AUTOMATIC" := by decide
+
+
+-- `stall_sound` / `shutdown_sound`: their hypotheses are met by reachable states (the stall flag goes up in the last
+-- loop of `opsFail ++ [.loop]` on `exQ1`; `exQ0` stops by itself in its first loop, from a state with no stop
+-- mode and no stop task)
+example : (final exQ1 opsFail).stalled = false ∧ (step exQ1 (final exQ1 opsFail) .loop).stalled = true := by decide
+example : (init exQ0).stop = none ∧ (init exQ0).stopMode = none ∧ (init exQ0).stopTask = none ∧
+    (step exQ0 (init exQ0) .loop).stop.isSome = true := by decide
+
+-- `main_loop_response`: `sFail` (after its op, the launch log is cleared by the next `step`) meets the hypotheses:
+-- not stopped, not paused, no shutdown decided; 2/a and 3/a sit in queue q before the release
+example : (clearOp sFail).stop = none ∧ (clearOp sFail).paused = false ∧ (preLoop exQ (clearOp sFail)).stopMode = none ∧
+    ((beforeRelease exQ (clearOp sFail)).qs.map fun q => q.deque) = [[], [(2, "a"), (3, "a")]] := by decide
 
 end CylcModel.C03Q
